@@ -251,7 +251,10 @@ def limit(ctx, fb, T):
         oe = f.origins(end)
         nm = f.path.split('::')[-1]
         if nm == 'from_buf':
-            ok = any(o[0] == 'agg' and o[3] == 'Some' for o in oe) and (has_origin_call(oe, 're:::len$') or any(o[0] == 'len_of' for o in oe)) and has_param_origin(oe, 0)
+            r = f.resolve_copy(end)
+            direct = r[0] == 'rv' and r[1][0] == 'agg' and r[1][3] == 'Some'
+            ok = direct and (has_origin_call(oe, 're:::len$') or any(o[0] == 'len_of' for o in oe)) and has_param_origin(oe, 0) \
+                and not any(o[0] == 'call' and not suffix_match(o[1], ('re:::len$', 're:::as_ref$')) for o in oe)
             ctx.inst(R, 'root:from_buf', ok, 'ValueReader::from_buf records end = Some(buf.len())', f.loc(s[3]))
         elif nm == 'from_file':
             # file.metadata().ok().filter(is_file).map(|m| m.len()): the value is produced by a closure of from_file
